@@ -3,7 +3,7 @@
    error - ReferenceExists unless an earlier constraint of the store fails first - in ANY state.
    Part 2 (cascade): a successful delete removes exactly the transitive cascade referrers of the
    entity (in ANY state, for every fuel), and keeps every other entity with its fields. *)
-From Coq Require Import List NArith Bool Lia.
+From Coq Require Import List NArith Bool Lia Arith.
 From Storage Require Import Base.Bytes Base.BytesFacts Store.Model Store.AListFacts Store.FrameProofs Store.UniqueProofs Store.FkProofs.
 Import ListNotations.
 
@@ -463,3 +463,119 @@ Section Cascade.
     - split; [eapply casc_matches_present; eauto|]. eapply (C r1 y1); [apply IH; reflexivity | exact Hin | exact Hm].
   Qed.
 End Cascade.
+
+(* ================================================================ fuel *)
+(* The fuel only bounds the depth of the cascade recursion: a result other than "out of fuel" does not
+   change when more fuel is given.  "Enough fuel" therefore means: any fuel with which the machine does
+   not answer EOutOfFuel. *)
+Section Fuel.
+  Variable sch : schema.
+  Variable oc : octx.
+
+  Definition Stable (del del' : st_ev -> name -> id -> res st_ev) : Prop :=
+    forall stev s x, del stev s x <> Err EOutOfFuel -> del' stev s x = del stev s x.
+
+  Lemma bind_not_err {A B} (a : res A) (k : A -> res B) e : bind a k <> Err e -> a <> Err e.
+  Proof. intros H Ha. apply H. rewrite Ha. reflexivity. Qed.
+
+  Lemma cascade_loop_stable del del' rs f i : Stable del del' -> forall cands cur,
+    cascade_loop sch del rs f i cands cur <> Err EOutOfFuel ->
+    cascade_loop sch del' rs f i cands cur = cascade_loop sch del rs f i cands cur.
+  Proof.
+    intros Hs. induction cands as [|c0 cands IH]; intros cur H; cbn [cascade_loop] in *; [reflexivity|].
+    destruct (casc_matches sch rs f i (fst cur) c0); [|apply IH; exact H].
+    rewrite (Hs cur rs c0 (bind_not_err _ _ _ H)). destruct (del cur rs c0) as [cur1|e]; cbn [bind] in *; [apply IH; exact H | reflexivity].
+  Qed.
+
+  Lemma bd_one_stable del del' stev c k : Stable del del' ->
+    before_delete_one sch oc del stev c k <> Err EOutOfFuel ->
+    before_delete_one sch oc del' stev c k = before_delete_one sch oc del stev c k.
+  Proof.
+    intros Hs H. destruct stev as [st evs]. destruct k as [| | | | |rs f cs|]; try reflexivity.
+    destruct cs; [reflexivity|]. cbn [before_delete_one] in *. apply cascade_loop_stable; assumption.
+  Qed.
+
+  Lemma bd_all_stable del del' c : Stable del del' -> forall ks stev,
+    before_delete_all sch oc del stev c ks <> Err EOutOfFuel ->
+    before_delete_all sch oc del' stev c ks = before_delete_all sch oc del stev c ks.
+  Proof.
+    intros Hs. induction ks as [|k ks IH]; intros stev H; cbn [before_delete_all] in *; [reflexivity|].
+    rewrite (bd_one_stable del del' stev c k Hs (bind_not_err _ _ _ H)).
+    destruct (before_delete_one sch oc del stev c k) as [stev1|e]; cbn [bind] in *; [apply IH; exact H | reflexivity].
+  Qed.
+
+  Lemma bd_chain_stable del del' x : Stable del del' -> forall ch cur,
+    before_delete_chain sch oc del x ch cur <> Err EOutOfFuel ->
+    before_delete_chain sch oc del' x ch cur = before_delete_chain sch oc del x ch cur.
+  Proof.
+    intros Hs. induction ch as [|[s' ks] ch IH]; intros cur H; cbn [before_delete_chain] in *; [reflexivity|].
+    rewrite (bd_all_stable del del' _ Hs ks cur (bind_not_err _ _ _ H)).
+    destruct (before_delete_all sch oc del cur _ ks) as [cur1|e]; cbn [bind] in *; [apply IH; exact H | reflexivity].
+  Qed.
+
+  Lemma process_delete_stable del del' stev s1 x : Stable del del' ->
+    process_delete sch oc del stev s1 x <> Err EOutOfFuel ->
+    process_delete sch oc del' stev s1 x = process_delete sch oc del stev s1 x.
+  Proof.
+    intros Hs H. unfold process_delete in *. rewrite (bd_chain_stable del del' x Hs _ stev (bind_not_err _ _ _ H)). reflexivity.
+  Qed.
+
+  Lemma children_delete_stable del del' x : Stable del del' -> forall cs cur flows,
+    children_delete sch oc del x cs cur flows <> Err EOutOfFuel ->
+    children_delete sch oc del' x cs cur flows = children_delete sch oc del x cs cur flows.
+  Proof.
+    intros Hs. induction cs as [|d cs IH]; intros cur flows H; cbn [children_delete] in *; [reflexivity|].
+    destruct (loadable sch (fst cur) (sd_name d) x); [|apply IH; exact H].
+    rewrite (process_delete_stable del del' cur (sd_name d) x Hs (bind_not_err _ _ _ H)).
+    destruct (process_delete sch oc del cur (sd_name d) x) as [cur1|e]; cbn [bind] in *; [apply IH; exact H | reflexivity].
+  Qed.
+
+  Definition del_body (del : st_ev -> name -> id -> res st_ev) (stev : st_ev) (s : name) (i : id) : res st_ev :=
+    let r := root_of sch s in
+    if negb (present sch (fst stev) r i) then Err ENotFound
+    else
+      do acc <- children_delete sch oc del i (children_of sch r) stev [];
+      let '(stev1, flows) := acc in
+      if negb (present sch (fst stev1) r i) then Ok stev1
+      else
+        do stev2 <- process_delete sch oc del stev1 r i;
+        let st3 := del_ent (fst stev2) r i in
+        let hasChildren := match flows with [] => false | _ => true end in
+        do evs1 <- fire (oc_vetoes oc) (snd stev2) r Deleted i hasChildren;
+        do evs2 <- fire_flows oc i flows evs1;
+        Ok (st3, evs2).
+
+  Lemma delete_by_id_S n stev s i : delete_by_id sch oc (S n) stev s i = del_body (delete_by_id sch oc n) stev s i.
+  Proof. reflexivity. Qed.
+
+  Lemma del_body_stable del del' stev s x : Stable del del' ->
+    del_body del stev s x <> Err EOutOfFuel -> del_body del' stev s x = del_body del stev s x.
+  Proof.
+    intros Hs H. unfold del_body in *. cbn zeta in *.
+    destruct (negb (present sch (fst stev) (root_of sch s) x)); [reflexivity|].
+    rewrite (children_delete_stable del del' x Hs _ stev [] (bind_not_err _ _ _ H)).
+    destruct (children_delete sch oc del x (children_of sch (root_of sch s)) stev []) as [[stev1 flows]|e];
+      cbn [bind] in *; [|reflexivity].
+    destruct (negb (present sch (fst stev1) (root_of sch s) x)); [reflexivity|].
+    rewrite (process_delete_stable del del' stev1 (root_of sch s) x Hs (bind_not_err _ _ _ H)). reflexivity.
+  Qed.
+
+  Lemma delete_fuel_step : forall n, Stable (delete_by_id sch oc n) (delete_by_id sch oc (S n)).
+  Proof.
+    induction n as [|n IH]; intros stev s x H; [exfalso; apply H; reflexivity|].
+    rewrite (delete_by_id_S (S n)), (delete_by_id_S n). rewrite (delete_by_id_S n) in H.
+    apply del_body_stable; assumption.
+  Qed.
+
+  (* more fuel never changes a result that is not "out of fuel" *)
+  Lemma delete_fuel_monotone_lemma : forall n m stev s x,
+    delete_by_id sch oc n stev s x <> Err EOutOfFuel ->
+    delete_by_id sch oc (n + m) stev s x = delete_by_id sch oc n stev s x.
+  Proof.
+    intros n m. revert n. induction m as [|m IH]; intros n stev s x H.
+    - rewrite Nat.add_0_r. reflexivity.
+    - rewrite Nat.add_succ_r, <- Nat.add_succ_l. rewrite IH.
+      + apply delete_fuel_step. exact H.
+      + rewrite (delete_fuel_step n stev s x H). exact H.
+  Qed.
+End Fuel.
